@@ -26,6 +26,7 @@ fn main() {
             let thorough = tier == "thorough";
             match family.as_str() {
                 "C01" => gen_pred::gen_c01(&mut out, thorough, seed),
+                "C06" => gen_pred::gen_c06(&mut out, thorough, seed),
                 "C02" => gen_sent::gen_c02(&mut out, thorough, seed),
                 "C03" => gen_sent::gen_c03(&mut out, thorough, seed),
                 "C04" => gen_sent::gen_c04(&mut out, thorough, seed),
